@@ -45,6 +45,9 @@ pub struct WFrameSpec {
     pub topic: u8,
     pub ephemeral: bool,
     pub pause_us: u16,
+    /// a context registration (`xs.context` in the zero context) instead of an ordinary frame
+    #[serde(default)]
+    pub register: bool,
 }
 
 #[derive(Clone, Debug, Serialize, Deserialize)]
@@ -82,12 +85,13 @@ pub fn rule_spec(n_writers: u8, labels: usize) -> BoxedStrategy<RuleSpec> {
 }
 
 pub fn strategy() -> BoxedStrategy<C02Case> {
-    let frame = (0u8..3, 0u8..3, prop_oneof![9 => Just(false), 1 => Just(true)], prop_oneof![3 => Just(0u16), 1 => 0u16..2000])
-        .prop_map(|(ctx, topic, ephemeral, pause_us)| WFrameSpec {
+    let frame = (0u8..3, 0u8..3, prop_oneof![9 => Just(false), 1 => Just(true)], prop_oneof![3 => Just(0u16), 1 => 0u16..2000], proptest::bool::weighted(0.12))
+        .prop_map(|(ctx, topic, ephemeral, pause_us, register)| WFrameSpec {
             ctx,
             topic,
             ephemeral,
             pause_us,
+            register,
         });
     let directed = (
         proptest::collection::vec(proptest::collection::vec(frame, 1..=4), 2..=4),
@@ -156,7 +160,14 @@ fn run_in(case: &C02Case, exec: &mut Exec) -> Result<CaseInfo, Fail> {
             .map(|k| WriterSpec {
                 start_delay_us: 0,
                 frames: (0..n)
-                    .map(|i| (spec(TOPICS[(i % 3) as usize], ctxs[((k + i) % 3) as usize], None), 0))
+                    .map(|i| {
+                        // (every seventh frame of the stress writers registers a context)
+                        if i % 7 == 6 {
+                            (spec("xs.context", ZERO, None), 0)
+                        } else {
+                            (spec(TOPICS[(i % 3) as usize], ctxs[((k + i) % 3) as usize], None), 0)
+                        }
+                    })
                     .collect(),
                 remove_lag: case.remove_lag,
             })
@@ -170,11 +181,15 @@ fn run_in(case: &C02Case, exec: &mut Exec) -> Result<CaseInfo, Fail> {
                     .iter()
                     .map(|f| {
                         (
-                            spec(
-                                TOPICS[f.topic as usize % 3],
-                                ctxs[f.ctx as usize % 3],
-                                if f.ephemeral { Some(WTtl::Ephemeral) } else { None },
-                            ),
+                            if f.register {
+                                spec("xs.context", ZERO, None)
+                            } else {
+                                spec(
+                                    TOPICS[f.topic as usize % 3],
+                                    ctxs[f.ctx as usize % 3],
+                                    if f.ephemeral { Some(WTtl::Ephemeral) } else { None },
+                                )
+                            },
                             f.pause_us as u64,
                         )
                     })
